@@ -44,7 +44,7 @@ Proof.
   destruct (idle_r r) eqn:I.
   - unfold idle_r in I. rewrite !andb_true_iff in I. rewrite !Z.eqb_eq in I.
     assert (E : r = mk 0 0 0 0 0 (f_role r) 0 0 0 4095 0 0).
-    { destruct r; unfold mk; cbn in *. f_equal; lia. }
+    { destruct r as [a0 a1 a2 a3 a4 a5 a6 a7 a8 a9 a10 a11]; unfold mk; cbn [f_owner f_tr f_enq f_mq f_ov f_role f_em f_d f_pb f_wq f_ib f_hi] in *. f_equal; lia. }
     rewrite <- E. rewrite Z.eqb_refl. reflexivity.
   - destruct (Z.eqb_spec (enc r) (enc (mk 0 0 0 0 0 (f_role r) 0 0 0 4095 0 0))) as [E|]; [|reflexivity].
     apply enc_inj in E; [|exact W|exact Wi]. exfalso.
